@@ -1,7 +1,7 @@
 #!/bin/bash
-# usage: confirm_seed.sh <Cxx> [worktree]   — re-verifies a seeded change in its scratch worktree against /repo's current HEAD
+# usage: confirm_seed.sh <Cxx> [worktree] [store-name]   — re-verifies a seeded change in its scratch worktree against /repo's current HEAD
 # and, when confirmed, stores it under /verif/seeded/<Cxx>/ (patch.diff re-diffed against HEAD, demo, meta.json).
-id=$1; wt=${2:-/tmp/seed-$1}; S=$wt/SEED; log=/tmp/confirm-$id.log
+id=$1; wt=${2:-/tmp/seed-$1}; store=${3:-$1}; S=$wt/SEED; log=/tmp/confirm-$store.log
 exec >$log 2>&1
 set -x
 cd $wt || exit 9
@@ -10,17 +10,17 @@ git checkout -q --detach main || exit 9
 # apply the source patch (hunks already present in HEAD are skipped)
 git apply $S/patch.diff 2>/dev/null || { for f in $(grep '^+++ b/' $S/patch.diff | sed 's|+++ b/||'); do git apply --include="$f" $S/patch.diff || true; done; }
 git diff --stat
-git diff > /tmp/seed-$id.cur.diff
-[ -s /tmp/seed-$id.cur.diff ] || { echo "RESULT: patch does not apply"; exit 3; }
+git diff > /tmp/seed-$store.cur.diff
+[ -s /tmp/seed-$store.cur.diff ] || { echo "RESULT: patch does not apply"; exit 3; }
 cmake -G Ninja -B _build -S . -DCMAKE_BUILD_TYPE=RelWithDebInfo >/dev/null && cmake --build _build >/dev/null || { echo "RESULT: build failed with patch"; exit 4; }
 ctest --test-dir _build -j8 --timeout 900 | tail -3
 ctest --test-dir _build -j8 --timeout 900 | grep -q "100% tests passed" ; suite=$?
-bash $S/demo/run.sh >/tmp/seed-$id.demo.with 2>&1; with=$?
+bash $S/demo/run.sh >/tmp/seed-$store.demo.with 2>&1; with=$?
 # drop the demo's own edits to tests before toggling; then revert the source patch only
-git apply -R /tmp/seed-$id.cur.diff || { echo "RESULT: cannot revert"; exit 5; }
-bash $S/demo/run.sh >/tmp/seed-$id.demo.without 2>&1; without=$?
+git apply -R /tmp/seed-$store.cur.diff || { echo "RESULT: cannot revert"; exit 5; }
+bash $S/demo/run.sh >/tmp/seed-$store.demo.without 2>&1; without=$?
 echo "RESULT: suite_with_patch=$suite demo_with=$with demo_without=$without"
 if [ $suite = 0 ] && [ $with != 0 ] && [ $without = 0 ]; then
-  mkdir -p /verif/seeded/$id && cp /tmp/seed-$id.cur.diff /verif/seeded/$id/patch.diff && rm -rf /verif/seeded/$id/demo && cp -r $S/demo /verif/seeded/$id/demo && cp $S/NOTES.md /verif/seeded/$id/NOTES.md
+  mkdir -p /verif/seeded/$store && cp /tmp/seed-$store.cur.diff /verif/seeded/$store/patch.diff && rm -rf /verif/seeded/$store/demo && cp -r $S/demo /verif/seeded/$store/demo && cp $S/NOTES.md /verif/seeded/$store/NOTES.md
   echo "RESULT: stored"
 fi
